@@ -50,6 +50,10 @@ CORPUS = {
         "cfg x=2 | T0: spawn 1; st 0 1 rlx; st 1 1 rlx; join 1; fence sc | T1: fence sc; ld 1 rlx; ld 0 rlx",
     ],
     "C08": [
+        # a park token must survive a release of an object the thread merely used earlier (F18a, repaired)
+        "cfg l=1 | T0: spawn 1; unpark 1; rd 0; unrd 0; join 1 | T1: rd 0; unrd 0; park",
+        "cfg l=1 | T0: spawn 1; unpark 1; rd 0; unrd 0; join 1 | T1: tryrd 0; unrd 0; park",
+        "cfg q=2 | T0: spawn 1; unpark 1; send 0 1; join 1; recv 0; recv 1; droprx 0; droprx 1 | T1: send 1 2; park",
         # unpark before park (token) and after park: the unparker's writes are visible after park
         "cfg c=1 x=1 | T0: spawn 1; ld 0 rlx; park; crd 0; join 1 | T1: cwr 0 1; st 0 1 rlx; unpark 0",
         "cfg c=1 | T0: spawn 1; cwr 0 1; unpark 1; join 1 | T1: park; crd 0",
@@ -60,6 +64,10 @@ CORPUS = {
         "cfg m=1 c=1 v=1 | T0: spawn 1; spawn 2; lock 0; cwr 0 1; unlock 0; cvone 0; cvone 0; join 1; join 2 | T1: lock 0; crd 0; ifeq 1 v:0 1; cvwait 0 0; unlock 0 | T2: lock 0; crd 0; ifeq 1 v:0 1; cvwait 0 0; unlock 0",
     ],
     "C05": [
+        # a park token must survive a release of an object the thread merely used earlier (F18a, repaired)
+        "cfg l=1 | T0: spawn 1; unpark 1; rd 0; unrd 0; join 1 | T1: rd 0; unrd 0; park",
+        "cfg l=1 | T0: spawn 1; unpark 1; rd 0; unrd 0; join 1 | T1: tryrd 0; unrd 0; park",
+        "cfg q=2 | T0: spawn 1; unpark 1; send 0 1; join 1; recv 0; recv 1; droprx 0; droprx 1 | T1: send 1 2; park",
         # a thread parked after touching a channel / a lock must stay parked when that object is used again
         "cfg q=1 | T0: spawn 1; recv 0; send 0 2; recv 0; join 1; droprx 0 | T1: send 0 1; park",
         "cfg m=1 | T0: spawn 1; lock 0; unlock 0; lock 0; unlock 0; join 1 | T1: lock 0; unlock 0; park",
